@@ -12,7 +12,7 @@ TECH = {
     "TT": "truth-table extraction by abstract evaluation", "PROV": "dataflow provenance on canonical access paths", "PAIR": "consume-on-use path rule",
     "TRIP": "loop trip-count rule", "ORD": "CFG must-pass-through / dominance", "OWN": "effect summaries (ownership)", "TAB": "literal table agreement",
     "DA": "definite assignment", "EXC": "exception-flow rule", "KEY": "key-space typing", "NORM": "normaliser provenance", "SIB": "sibling agreement",
-    "DET": "determinism scan", "TOK": "tokenizer dispatch/effect table", "EMIT": "emission model over guard assignments", "SENT": "sentinel-confusion rule",
+    "DET": "determinism scan", "TOK": "tokenizer dispatch/effect table", "EMIT": "emission model over guard assignments", "SENT": "sentinel-confusion rule", "NULL": "optional-parameter guard rule (dereference only under the not-None test)",
     "SEL": "selection rule over a backward slice (which component / element is chosen)", "IDX": "index-bound and scan-coverage rule (incl. parsed regular expressions)",
 }
 
